@@ -241,6 +241,11 @@ def run(ck):
             sb, ss = stores[0]
             val = df.rvalue_expr(fn, ss["rv"])
             ia, va = df.alternatives(fn, idx), df.alternatives(fn, val)
+            # `parent[a.max(b)] = a.min(b)`: one of the two operands, whichever
+            from ..common import is_min_call, is_max_call
+            for _ in range(2):
+                ia = [y for x in ia for y in (x[2] if (is_min_call(x) or is_max_call(x)) else [x])]
+                va = [y for x in va for y in (x[2] if (is_min_call(x) or is_max_call(x)) else [x])]
             if ia and va and all(is_root_call(x) for x in ia) and all(is_root_call(x) for x in va):
                 # no mutation between the two root calls and the store
                 rcalls = [b2 for b2, t2 in fn.calls() if (callee_of(t2).get("rpath") or "") in roots and bb in cfg.reachable(fn, [b2])]
